@@ -335,6 +335,13 @@ def strata(tier):
         (L("value", "keys_contain_any_of", "a", "b"), L("value", "keys_contain_any_of", "b", "a"), "arg-order"),
         (L("value", "in_", [1, 2]), L("value", "in_", [2, 1]), "arg-order"),
         (L("value", "in_range", 1, 5), L("value", "in_range", 5, 1), "arg-order"),
+        # long argument lists that differ in one item only (items whose hashes collide: hash(-1) == hash(-2); 2**61-1 wraps to 0)
+        (L("value", "in_", [-1] + list(range(70))), L("value", "in_", [-2] + list(range(70))), "arg-value:long-list"),
+        (L("value", "in_", list(range(100)) + [-1]), L("value", "in_", list(range(100)) + [-2]), "arg-value:long-list"),
+        (L("value", "not_in", list(range(40)) + [2**61 - 1]), L("value", "not_in", list(range(40)) + [0]), "arg-value:long-list"),
+        (L("value", "in_", ["k%d" % i for i in range(200)]), L("value", "in_", ["k%d" % i for i in range(199)] + ["k1"]), "arg-value:long-list"),
+        (L("value", "keys_contain_any_of", *["k%d" % i for i in range(80)]), L("value", "keys_contain_any_of", *(["k%d" % i for i in range(79)] + ["zz"])), "arg-value:long-list"),
+        (L("value", "in_", [1.0] + list(range(2, 70))), L("value", "in_", [1] + list(range(2, 70))), "arg-type:long-list"),
         (L("value", "keys_contain_N_of", 1, ["a", 2]), L("value", "keys_contain_N_of", 2, ["a", 1]), "arg-order"),
         (L("value", "equal_to_approx", 1, 3), L("value", "equal_to_approx", 3, 1), "arg-order"),
         (L("value", "keys_contain_one_of", "a", "a", "b"), L("value", "keys_contain_one_of", "a", "b", "b"), "arg-multiplicity"),
@@ -346,7 +353,7 @@ def strata(tier):
         (L("value", "less_than", 0.3), L("value", "less_than", 0.1 + 0.2), "arg-value:float-neighbour"),
         (L("value", "greater_than_or_equal_to", 1e-9), L("value", "greater_than_or_equal_to", math.nextafter(1e-9, 1)), "arg-value:float-neighbour"),
     ):
-        yield {"kind": "cond", "x": x, "y": y, "atom": atom, "probes": [c01.ZOO_LIST, c01.ZOO_MAP, [1, 1.0, True, 2, 2.5, "a", 0.3, 0.1 + 0.2, 1e-9, math.nextafter(1e-9, 1)]]}
+        yield {"kind": "cond", "x": x, "y": y, "atom": atom, "probes": [c01.ZOO_LIST, c01.ZOO_MAP, [1, 1.0, True, 2, 2.5, "a", 0.3, 0.1 + 0.2, 1e-9, math.nextafter(1e-9, 1), -1, -2, 0, 2**61 - 1, "k1", "k199", {"zz": 1}, {"k79": 1}]]}
     for x, y, atom in (
         (PC.mkpath([{"p": "prim", "v": "a"}, {"p": "prim", "v": 0}]), PC.mkpath([{"p": "prim", "v": "a"}, {"p": "prim", "v": 1}]), "part:key"),
         (PC.mkpath([{"p": "prim", "v": 1}]), PC.mkpath([{"p": "prim", "v": True}]), "part:key-type"),
